@@ -20,7 +20,7 @@ LEVEL = "exploration"
 tiers = {
     "quick": {"runs": 4000, "chunk": 40, "wall_cap_s": 2400, "determinism_samples": 8,
               "max_minimise": 3, "minimise_budget_s": 45},
-    "thorough": {"runs": 60000, "chunk": 100, "wall_cap_s": 3300, "determinism_samples": 40,
+    "thorough": {"runs": 60000, "chunk": 100, "wall_cap_s": 7200, "determinism_samples": 40,
                  "max_minimise": 5, "minimise_budget_s": 120},
 }
 
